@@ -35,6 +35,9 @@ RULES = [
      ("theorem:upperRun_total", "len <= sequence_len = i - start")),
     (r"pattern\.rs", r"^is_boundary$", r"indexing_slicing", r"^bytes\[start\]$",
      ("theorem:matcher_no_panic", "needs a non-empty match: the variant map has no empty key (variantMap_has_no_empty_key)")),
+    (r"scanner\.rs", r"^generate_hunks$", r"indexing_slicing", r"^line\[(\.\.match_col|raw_end\.\.)\]$",
+     ("theorem:lineAfter_total", "byte slices inside `if line.get(match_col..raw_end) == Some(content.as_bytes())`: match_col <= raw_end <= len "
+                                 "(lineAfterRaw_total); no character-boundary condition on &[u8]")),
     (r"scanner\.rs", r"^generate_hunks$", r"string_slice", r"line_string\[\.\.match_col\]",
      ("theorem:lineAfter_total", "inside `if let Some(rest) = line_string.get(match_col..)`: match_col is a boundary <= len")),
     (r"preview/diff\.rs", r"^render_diff$", r"regex::replace_range", r".",
